@@ -1139,7 +1139,11 @@ theorem validateAndAdjust_sig {c c0 : ChanState} (h : sigX c = sigX c0) {p : Pul
       · cases hok
       · rename_i hne
         rw [if_neg hne]
-        exact ⟨_, rfl⟩
+        -- the lengthened pulse is validated as scheduled (F37): same verdict on both channels
+        rw [← validatePulse_sig h]
+        cases hadj : (if d ≠ p.dur then validatePulse c p.sumAdj else Except.ok ()) with
+        | error e => rw [hadj] at hok; cases hok
+        | ok u2 => exact ⟨_, rfl⟩
 
 theorem processEomParams_sig {c c0 : ChanState} (h : sigX c = sigX c0) (e : EomIn) :
     processEomParams c e = processEomParams c0 e := by
